@@ -32,6 +32,16 @@ ClientAccepted(p) == \/ p.client_auth = "none"
 AlpnCompatible(p) == p.alpn # "http/1.1"
 CallTransmitted(p) == p.tls_cfg /\ ServerAuthenticated(p) /\ H2Agreed(p) /\ AlpnCompatible(p) /\ ClientAccepted(p)
 PeerCertsVisible(p) == CallTransmitted(p) /\ p.client_auth # "none" /\ ValidIdentity(p)
+\* p.second_alpn (optional field, extra rows): after the connection of the table point, the same Endpoint connects again, to a server
+\* that shares the first one's session store (the handshake may be resumed) and negotiates second_alpn.  The h2 requirement applies
+\* to every connection on its own: resumption abbreviates the handshake, it does not carry the old connection's ALPN over.
+SecondTransmitted(p) == CallTransmitted(p) /\ (p.second_alpn = "h2" \/ p.assume_http2) /\ p.second_alpn # "http/1.1"
+\* o2 = [call_ok, handler_runs (of the second connection), first_bytes]
+Clauses2(p, o2) ==
+  << <<"C15.CallOnlyOverAuthenticatedH2", o2.call_ok => SecondTransmitted(p)>>,
+     <<"C15.ValidConfigurationWorks", SecondTransmitted(p) => o2.call_ok>>,
+     <<"C15.NoRequestReachesHandlerOtherwise", o2.handler_runs = (IF SecondTransmitted(p) THEN 1 ELSE 0)>>,
+     <<"C15.NeverPlaintext", o2.first_bytes \in {"tls_client_hello", "none"}>> >>
 \* obs = [call_ok, handler_runs, peer_certs (-1 = none), first_bytes]
 Clauses(p, o) ==
   << <<"C15.CallOnlyOverAuthenticatedH2", o.call_ok => CallTransmitted(p)>>,
